@@ -250,7 +250,102 @@ def task_wide(t):
     return rep
 
 
-TASKS = dict(c=task, v=task_vars, w=task_wide)
+def _ledger(handles):
+    ext = {}
+    for h in handles:
+        ext[abs(h.node)] = ext.get(abs(h.node), 0) + 1
+    return ext
+
+
+def task_reorder(t):
+    """Copying INTO a manager whose dynamic reordering is enabled: a reordering request is forced
+    at the k-th node creation inside the copy and would end in a chosen order (every permutation
+    of the three variables) if it were served.  The copy must be exact and canonical, the target
+    consistent, whatever the library does with the request."""
+    import itertools
+    _, k, si, ns, focus = t
+    rep = run.Report()
+    rec = sweep.Rec(rep)
+    names = names_for(3, env.SEED)
+    U = Universe(names)
+    src = S.new_autoref({v: i for i, v in enumerate(names)})
+    refs, b = sweep.build_all(src, U, hold=False)
+    fn = {f: src._add_int(r) for f, r in refs.items()}
+    sraw = src._bdd
+    perms = list(itertools.permutations(names))
+    seam = sweep.pick_order_seam()
+    if not seam.available():
+        rep.note('dd.bdd._request_reordering is absent: reordering cannot be forced')
+        return rep
+    fs = sorted(refs)
+    mine = sweep.shard(fs, ns)[si]
+    routes = ('bdd.copy_bdd', 'autoref.BDD.copy', '_copy.copy_bdd', 'bdd.BDD.copy')
+    with seam:
+        for fu in mine:
+            if focus is not None and fu != focus:
+                continue
+            for pi, perm in enumerate(perms):
+                route = routes[(fu + pi) % len(routes)]
+                case = dict(task=t[:-1] + (fu,), u=U.fmt(fu), route=route, position=k,
+                            order_if_served=list(perm))
+                try:
+                    # a fresh target in another order, holding two functions, reordering on
+                    torder = {v: i for i, v in enumerate(perms[(pi + 2) % len(perms)])}
+                    traw = S.new_bdd(torder)
+                    tgt = S.autoref_around(traw)
+                    tb = sweep.Builder(traw, U)
+                    held = []
+                    for g in (U.var(names[0]) ^ U.var(names[2]), U.var(names[1]) & U.var(names[2])):
+                        held.append((tgt._add_int(tb.verified(g)), g))
+                    tgt.configure(reordering=True)
+                    seam.target = {v: i for i, v in enumerate(perm)}
+                    seam.arm((k,))
+                    try:
+                        if route == 'bdd.copy_bdd':
+                            r = tgt._add_int(_bdd.copy_bdd(fn[fu].node, sraw, traw))
+                        elif route == 'autoref.BDD.copy':
+                            r = src.copy(fn[fu], tgt)
+                        elif route == '_copy.copy_bdd':
+                            r = _copy.copy_bdd(fn[fu], tgt)
+                        else:
+                            r = tgt._add_int(sraw.copy(fn[fu].node, traw))
+                    finally:
+                        seam.disarm()
+                    rep.add('evaluations')
+                    rep.add('nontrivial')
+                    if seam.count >= k:
+                        rep.add('requests_made_inside_the_copy')
+                    den = O.Den(traw, U)
+                    if den(r) != fu:
+                        rec('reorder-wrong:' + route, 'the copy denotes another function when a '
+                            'reordering request is made inside the copy', case)
+                    tb.reset()
+                    if r.node != tb(fu):
+                        rec('reorder-noncanonical:' + route, 'the copy is not the canonical '
+                            'reference of its function in the target', case)
+                    for h, g in held:
+                        if den(h) != g:
+                            rec('reorder-held:' + route, 'a function held in the target changed',
+                                case)
+                    live = [h for h, _ in held] + [r]
+                    env.settle()
+                    O.check(traw, _ledger(live), U, O.Den(traw, U))
+                    if not tgt.configure().get('reordering'):
+                        rec('reorder-config', 'dynamic reordering of the target is switched off '
+                            'after the copy', case)
+                    del r, live, held
+                except Violation as e:
+                    rec('reorder-broken:' + e.what, e.what, case, **e.detail)
+                except Exception as e:  # noqa
+                    rec('reorder-exception:%s:%s' % (route, type(e).__name__),
+                        'raised %r' % (e,), case)
+    if si == 0 and focus is None:
+        rep.sample(dict(kind='copy into a manager with reordering on, request forced inside',
+                        position=k, routes=list(routes)))
+    return rep
+
+
+TASKS = dict(c=task, v=task_vars, w=task_wide, r=task_reorder)
 
 
 def dispatch(t):
@@ -259,6 +354,7 @@ def dispatch(t):
 
 def plan(tier):
     ts = [('v', 3, None), ('v', 4, None)]
+    ts += [('r', k, si, 4, None) for k in (1, 2) for si in range(4)]
     for tperm in ('rev', 'weave'):
         ts.append(('w', 12, 2, tperm, 0, 1, None))
         for si in range(8):
